@@ -10,3 +10,4 @@ import Bisquitt.Props.C18
 import Bisquitt.Props.C19
 import Bisquitt.Props.C29
 import Bisquitt.Spec.Tx
+import Bisquitt.Props.C27
